@@ -4,8 +4,11 @@ PATCH="$1"; shift
 export VERIF_REPO=/tmp/repo_clean VERIF_SCRATCH=/tmp/scratch_dev
 cd /tmp/repo_clean && git checkout -- . && git apply "$PATCH" || { echo "patch does not apply"; exit 2; }
 cd /verif
+CAUGHT=""
 for p in "$@"; do
   out=$(./check $p --tier quick 2>&1 | grep -E "^(VIOLATION|OK|ERROR|KNOWN)" | head -2 | tr '\n' ' ')
   echo "$p: ${out:0:200}"
+  echo "$out" | grep -q VIOLATION && CAUGHT="$CAUGHT $p"
 done
 cd /tmp/repo_clean && git checkout -- .
+echo "CAUGHT-BY:$CAUGHT"
